@@ -51,6 +51,7 @@
   `RedkaModel/Proofs/Str.lean`.
 -/
 import RedkaModel.Proofs.Float
+import RedkaModel.Proofs.Round
 import RedkaModel.Proofs.Str
 import RedkaModel.Props.C17
 
@@ -345,6 +346,33 @@ theorem incr_nonnumeric_notrace : ∀ (k : Bytes) (d : Int) (now : Int) (db : DB
   fun _ _ _ _ h => update_error_db h
 
 /-! ### float increment -/
+
+/-- "an increment reads the stored text as a number": the number `parseFloatDec` reads from a
+decimal text is the float64 NEAREST to the rational the text denotes, ties to even — what
+`strconv.ParseFloat` documents. (`parseFloatDec` hands the rational `n · 10^e' ` to `ratRound53` as
+`p / q`; `numAt p t / denAt q t` is `p · 2^t / q`.) For every positive rational. -/
+theorem float_parse_correctly_rounded : ∀ (p q : Nat), 0 < p → 0 < q → ∀ x : Dyadic,
+    ratRound53 p q = some x →
+    ∃ (m : Nat) (t : Int), x = Dyadic.ofIntWithPrec (m : Int) t ∧ 2 ^ 52 ≤ m ∧ m ≤ 2 ^ 53 ∧
+      2 * ((Round.numAt p t : Int) - (m : Int) * Round.denAt q t).natAbs ≤ Round.denAt q t ∧
+      (2 * ((Round.numAt p t : Int) - (m : Int) * Round.denAt q t).natAbs = Round.denAt q t → m % 2 = 0) :=
+  fun p q hp hq x h => Round.ratRound53_nearest p q hp hq x h
+
+/-- "…and stores the canonical text of the sum": the float64 sum `f64add x d = round53 (x + d)` is the
+exact sum rounded to the nearest float64, ties to even (IEEE 754 addition), for every dyadic sum. -/
+theorem float_sum_correctly_rounded : ∀ (n k : Int) (hn : n % 2 = 1),
+    (natBits n.natAbs ≤ 53 → round53 (.ofOdd n k hn) = .ofOdd n k hn) ∧
+    (53 < natBits n.natAbs →
+      ∃ (m sh : Nat), sh = natBits n.natAbs - 53 ∧
+        round53 (.ofOdd n k hn) = Dyadic.ofIntWithPrec (if n < 0 then -(m : Int) else (m : Int)) (k - sh) ∧
+        2 ^ 52 ≤ m ∧ m ≤ 2 ^ 53 ∧
+        2 * ((n.natAbs : Int) - (m : Int) * (2 ^ sh : Nat)).natAbs ≤ 2 ^ sh ∧
+        (2 * ((n.natAbs : Int) - (m : Int) * (2 ^ sh : Nat)).natAbs = 2 ^ sh → m % 2 = 0)) :=
+  Round.round53_nearest
+
+/-- non-vacuity: 1/10 rounds to 3602879701896397 / 2^55 (the double written 0.1), 1/3 to an odd multiple -/
+example : ratRound53 1 10 = some (Dyadic.ofIntWithPrec 3602879701896397 55) := by decide +kernel
+example : (ratRound53 1 3).isSome = true ∧ ratRound53 1 (10 ^ 400) = none := by decide +kernel
 
 /-- the text `formatFloatDec` prints is never empty and reads back (through `core.Value.Float`) as
 the number printed -/
